@@ -254,6 +254,9 @@ def call_method(I, st, name, obj, args, kwargs, node):
         return list_method(I, st, meth, obj, args, kwargs, node)
     if kind == "set":
         return set_method(I, st, meth, obj, args, kwargs, node)
+    if kind == "task":
+        from . import asyncio_model
+        return asyncio_model.task_method(I, st, meth, obj, args, kwargs, node)
     if kind == "td" and meth == "total_seconds":
         return mkreal(z3.ToReal(obj.term) / 1000000)
     if kind == "real":
